@@ -2,5 +2,5 @@
 # tools/mut.sh <file-in-repo> <sed-expr> <check args...>  : apply a mutation, run check, revert
 f=$1; e=$2; shift 2
 cd /repo && sed -i "$e" "$f" && git diff --stat | tail -1
-cd /verif && ./check "$@" --no-evidence | tail -8; echo "exit=$?"
+cd /verif && ./check "$@" --no-evidence > /tmp/mut.out 2>&1; rc=$?; grep -v "^VIOLATION" /tmp/mut.out | tail -4 | cut -c1-300; echo "exit=$rc"
 cd /repo && git checkout -- . 
